@@ -318,6 +318,9 @@ var badIdxForms = map[string][]string{
 	// multi-byte digits: one rune of 2 bytes ("٣", "߃"), two runes ("１２" fullwidth, "١٢"
 	// Arabic-Indic, "१२" Devanagari), ASCII digit + non-ASCII digit
 	"non-ascii": {"１２", "١٢", "٣", "߃", "१२", "1２", "１2", "1٢", "²³", "¼"},
+	// two digits followed by the separator a pre-installed plugin's file name uses between
+	// index and name ("<idx>-<name>"), and more: the index field swallowing part of a name
+	"dash-suffix": {"05-", "05-x", "05-foo", "05--", "05-06", "10-", "99-name", "00-0", "12-3-4", "05-ü", "05- ", "-05", "5-5", "0-10"},
 }
 
 var badIdxKinds = func() []string {
@@ -338,6 +341,10 @@ func genBadIdx(t *rapid.T, label string) string {
 		return "1"
 	}
 	k := rapid.SampledFrom(badIdxKinds).Draw(t, label+"-kind")
+	if k == "dash-suffix" && rapid.Bool().Draw(t, label+"-composed") {
+		// two digits, the separator, and a drawn tail (possibly empty, possibly a whole name)
+		return genGoodIdx(t, label+"-nn") + "-" + rapid.SampledFrom([]string{"", "x", "name", "-", "07", "plugin-name", "a b", "0"}).Draw(t, label+"-tail")
+	}
 	return rapid.SampledFrom(badIdxForms[k]).Draw(t, label)
 }
 
@@ -351,6 +358,9 @@ func idxClass(s string) string {
 				return k
 			}
 		}
+	}
+	if len(s) >= 3 && twoDigits.MatchString(s[:2]) && s[2] == '-' {
+		return "dash-suffix"
 	}
 	return "other"
 }
@@ -437,6 +447,9 @@ func genBadPeer(t *rapid.T, label string) Peer {
 			p.Name = ""
 		case "idx":
 			p.Idx = genBadIdx(t, l+"-idx")
+			if idxClass(p.Idx) == "dash-suffix" && rapid.Bool().Draw(t, l+"-noname") {
+				p.Name = "" // the index field may carry what looks like a name of its own
+			}
 		case "mask":
 			p.Mask = genBadMask(t, l+"-mask")
 		case stallMulti:
@@ -851,6 +864,9 @@ func regClasses(c C17Case) ev.Outcome {
 		if k := idxClass(p.Idx); k != "two-digits" {
 			classes["bad:idx"] = true
 			classes["bad-idx:"+k] = true
+			if k == "dash-suffix" && p.Name == "" {
+				classes["bad-idx:dash-suffix+empty-name"] = true
+			}
 		}
 		if k := maskClass(p.Mask); k == "negative" || k == "bit-13" || k == "high-bits" {
 			classes["bad:mask"] = true
